@@ -234,6 +234,10 @@ func (tds *Conn) ReadFrom() {
 
 		// err from packet.ReadFrom
 		if errors.Is(err, io.EOF) {
+			// The reader goroutine ends here - report the closed
+			// connection, otherwise consumers wait for packages that
+			// will never arrive.
+			tds.errCh <- fmt.Errorf("connection closed: %w", err)
 			return
 		}
 	}
